@@ -26,7 +26,7 @@ def bitvec(bits) -> bytes:
     return bytes(out)
 
 
-def write_7z(files, solid=False, declared_sizes=None) -> bytes:
+def write_7z(files, solid=False, declared_sizes=None, declared_files=None, names_blob=None, trailing=b"") -> bytes:
     """files: [(name, bytes | None)]  (None = directory).  declared_sizes: optional {index: size} to lie about
     an unpack size (not used by default)."""
     streams = [(i, d) for i, (n, d) in enumerate(files) if d]
@@ -51,16 +51,16 @@ def write_7z(files, solid=False, declared_sizes=None) -> bytes:
             h += b"\x09" + sizes
         h += b"\x0a" + b"\x01" + b"".join(struct.pack("<I", zlib.crc32(d)) for f in folders for d in f) + b"\x00"
         h += b"\x00"
-    h += b"\x05" + num(len(files))
+    h += b"\x05" + num(len(files) if declared_files is None else declared_files)
     empty = [not d for _, d in files]
     if any(empty):
         bv = bitvec(empty)
         h += b"\x0e" + num(len(bv)) + bv
         ef = bitvec([d is not None for (_, d), e in zip(files, empty) if e])  # empty FILE (not dir)
         h += b"\x0f" + num(len(ef)) + ef
-    names = b"".join(n.encode("utf-16-le") + b"\x00\x00" for n, _ in files)
+    names = b"".join(n.encode("utf-16-le") + b"\x00\x00" for n, _ in files) if names_blob is None else names_blob
     h += b"\x11" + num(len(names) + 1) + b"\x00" + names
     h += b"\x00\x00"
     start = struct.pack("<QQI", len(packed), len(h), zlib.crc32(bytes(h)))
     sig = b"7z\xbc\xaf\x27\x1c" + b"\x00\x04" + struct.pack("<I", zlib.crc32(start)) + start
-    return sig + packed + bytes(h)
+    return sig + packed + bytes(h) + trailing   # CRCs are always consistent with the (possibly hostile) header
